@@ -102,9 +102,9 @@ def run_cfgs(rep, exe, cfgs, budget_s, label, par=1):
                        'mock camera/storage devices honour the device-kit contract; ring sizes, frame counts and shapes as listed per configuration']
 
 
-def build_rt():
+def build_rt(exe='rt_main'):
     b = C.make('engines/vsched/Makefile', 'cov')
-    return f'{b}/rt_main'
+    return f'{b}/{exe}'
 
 
 # ---------------------------------------------------------------- per-property configuration tables
@@ -271,7 +271,33 @@ def c08_cfgs(tier):
     return c
 
 
+def c18_cfgs(tier):
+    import itertools
+    out = []
+    ctls = ['s', 'ws', 'ts', 'tts', 'wst', 'tws', 'twts', 't', 'tt', 'st', 'ss']
+    for trig in (0, 1):
+        for frames in (1, 2):
+            for ctl in ctls:
+                if not trig and 't' in ctl and len(ctl) > 2:
+                    continue
+                out.append(cfg('c18', 'D2', trigger=trig, frames=frames, ctl=ctl))
+    out += [cfg('c18', 1, trigger=1, frames=1, ctl='ts'), cfg('c18', 1, trigger=0, frames=2, ctl='ws'), cfg('c18', 'D3', trigger=1, frames=2, ctl='tts'),
+            cfg('c18', 'D2', trigger=1, frames=2, ctl='t', ctl2='tws'), cfg('c18', 'D2', trigger=1, frames=1, ctl='s', ctl2='twts')]
+    if tier == 'quick':
+        return out
+    t = list(out)
+    allc = [''.join(x) for k in (1, 2, 3) for x in itertools.product('tsw', repeat=k)]
+    for trig in (0, 1):
+        for frames in (1, 2, 3):
+            for ctl in allc:
+                t.append(cfg('c18', 'D2', trigger=trig, frames=frames, ctl=ctl))
+    t += [cfg('c18', 'D3', trigger=trig, frames=frames, ctl=ctl) for trig in (0, 1) for frames in (1, 2) for ctl in ('s', 'ts', 'tts', 'wst', 'tws')]
+    t += [cfg('c18', 2, trigger=1, frames=1, ctl='ts'), cfg('c18', 2, trigger=0, frames=1, ctl='s'), cfg('c18', 'D4', trigger=1, frames=1, ctl='ts')]
+    return t
+
+
 TABLE = {
+    'C18': (c18_cfgs, 'caller get_frame x 1-3, controller sequences over {trigger, stop, wait}, trigger on/off, one restart, all schedules within the bound on the real simulated camera through the HAL; oracle: ids strictly increasing, count restarts, frames <= triggers of this run, stop unblocks (no deadlock)'),
     'C08': (c08_cfgs, 'all well-formed client programs up to the depth over {configure A/B/none, start, trigger, map, unmap, stop, abort, wait, shutdown+init} x schedules; oracle: device life-cycle automaton fed by the recording driver (page-protected devices), state reports'),
     'C04': (c04_cfgs, 'configurations x all schedules with <= bound deviations of start;[client polls];stop on the real runtime; oracle: storage log == frames delivered by the camera'),
     'C05': (c05_cfgs, 'shape sweep (all residues of the image size mod 8) x schedules; oracle: every packet at storage and every region mapped by the client is a chain of whole 8-byte aligned frames with the exact padded size and the camera\'s shape'),
@@ -284,9 +310,9 @@ TABLE = {
 
 def run(pid, tier):
     rep = C.Report(pid, tier)
-    exe = build_rt()
+    exe = build_rt('simcam_main' if pid == 'C18' else 'rt_main')
     fn, label = TABLE[pid]
     budget = C.deadline_s(3000 if tier == 'thorough' else 600)
     cfgs = fn(tier)
-    run_cfgs(rep, exe, cfgs, budget, label, par=C.NPROC if pid in ('C08', 'C05') else 1)
+    run_cfgs(rep, exe, cfgs, budget, label, par=C.NPROC if pid in ('C08', 'C05', 'C18') else 1)
     rep.finish()
